@@ -9,6 +9,7 @@ Helper lemmas and the inductive invariants are in Proofs/When*.lean.
 -/
 import YaclibModel.Proofs.WhenSpec
 import YaclibModel.Proofs.WhenNodes
+import YaclibModel.Proofs.WhenComposeProgress
 import YaclibModel.Extracted.Kernels
 import YaclibModel.Model.Skeletons
 
@@ -295,6 +296,124 @@ example : ∃ s, Reachable ⟨.allTuple true, [.err 0, .err 1]⟩ s ∧ s.crashe
   have h11 := validator_sound h10 (l := .dec 1 2) (s' := _) rfl
   have h12 := validator_sound h11 (l := .dec 0 1) (s' := _) rfl
   exact ⟨_, h12, rfl, rfl, rfl, rfl, rfl, rfl⟩
+
+/-! ### inputs as real unique cores (Model/WhenCompose.lean): the interface of the When model is a theorem, not an assumption
+
+`WhenU` = the When model composed with n instances of the C01 model (Model/Unique.lean), one per input: the combinator's
+`SetCallback` on input i is instance i's consumer (`load`, `compare_exchange`), the input's completion is instance i's
+producer (`exchange`), and "the callback of input i is entered" is instance i's `invoke` event.  The interleavings INSIDE
+`SetCallback` / `Promise::Set` of every input, which the When model's `regSet` / `fire` steps hide, are all there. -/
+
+section Composed
+open Yaclib
+variable {S : WhenU.State}
+
+/-- **the interface is sound**: the When component of every reachable state of the composed system is a reachable state of
+    the When model (each `regSet` / `fire` it took was enabled when the input instance produced it); the callback entries it
+    counted are exactly instance i's continuation deliveries: at most one, carrying input i's outcome -/
+theorem input_interface_sound (hwf : w.wf) (h : WhenU.Reachable w S) :
+    Reachable w S.wh ∧
+    ∀ i, S.wh.consumed i = (S.u i).delivered.length ∧ (S.u i).delivered.length ≤ 1 ∧
+      ∀ x, x ∈ (S.u i).delivered → x.2 = WhenU.conv (w.inp i) := by
+  obtain ⟨hW, hK⟩ := WhenU.sim hwf h
+  refine ⟨hW, fun i => ⟨hK.entries i, ?_, ?_⟩⟩
+  · have hI := Unique.inv_reachable (WhenU.unique_reachable h i).1
+    rcases hI.delivered_one with h0 | h1
+    · simp [h0]
+    · omega
+  · exact (Unique.inv_reachable (WhenU.unique_reachable h i).1).delivered_val
+
+/-- the registering thread enters the callback inline only for the input the loop is at, only when that input's word already
+    held the result (`SetCallback` returned false), and with that input's outcome -/
+theorem callback_entered_inline_only_if_complete (h : WhenU.Reachable w S) {i : Nat} {r : Unique.Res} {S' : WhenU.State}
+    (hs : WhenU.Step w S (.enterC i r) S') :
+    (S.u i).word = .result ∧ r = WhenU.conv (w.inp i) ∧ S.wh.reg = i ∧ (S.u i).delivered = [] := by
+  have hI := Unique.inv_reachable (WhenU.unique_reachable h i).1
+  have hk := (WhenU.unique_reachable h i).2
+  cases hs with
+  | enterC _ _ u' hr hu =>
+      cases hu with
+      | cInvoke r' hp hv hst =>
+          refine ⟨(hI.c_after (Or.inl ⟨_, hp⟩)).1, (hI.stored_val r hst).1, hr.1, ?_⟩
+          rcases hI.delivered_one with h0 | h1
+          · exact h0
+          · rw [h1.2.1.1] at hp; cases hp
+      | cInvokeSub r' hp hst => have := hk.cpc; rw [hp] at this; simp at this
+
+/-- the completing thread enters the callback only after it was installed (the When model is waiting: `pending`), after the
+    result was stored, with that input's outcome -/
+theorem callback_entered_by_completer_only_if_installed (hwf : w.wf) (h : WhenU.Reachable w S) {i : Nat} {r : Unique.Res}
+    {S' : WhenU.State} (hs : WhenU.Step w S (.enterP i r) S') :
+    S.wh.pc i = .pending ∧ (S.u i).stored = some r ∧ r = WhenU.conv (w.inp i) ∧ (S.u i).delivered = [] := by
+  have hI := Unique.inv_reachable (WhenU.unique_reachable h i).1
+  have hk := (WhenU.unique_reachable h i).2
+  have hK := (WhenU.sim hwf h).2
+  cases hs with
+  | enterP _ _ u' hi hu =>
+      cases hu with
+      | pInvoke r' hp hv hst =>
+          refine ⟨hK.fire_pending i hp, hst, (hI.stored_val r hst).1, ?_⟩
+          rcases hI.delivered_one with h0 | h1
+          · exact h0
+          · rw [h1.2.2] at hp; cases hp
+      | pInvokeSub r' hp hst => have := hk.ppc; rw [hp] at this; simp at this
+
+/-- nothing is lost in the composed system: when no thread can move, every promise was fulfilled, every `SetCallback`
+    returned, every callback was entered exactly once, every input was released exactly once, the output was set exactly once -/
+theorem quiescent_complete_composed (hwf : w.wf) (hn : w.n ≠ 0) (h : WhenU.Reachable w S)
+    (hq : ∀ l S', ¬ WhenU.Step w S l S') :
+    S.wh.outSet.length = 1 ∧ S.wh.crashed = false ∧
+    ∀ i, i < w.n → S.wh.pc i = .done ∧ S.wh.released i = 1 ∧ (S.u i).delivered.length = 1 ∧ (S.u i).ppc = .done ∧
+      (S.u i).todo = [] := by
+  obtain ⟨hW, hK⟩ := WhenU.sim hwf h
+  obtain ⟨hqw, _, hinst⟩ := WhenU.quiescent_parts hwf h hq
+  have hI := inv_reachable hwf hW
+  have hcr := (invb_reachable hwf hW).not_crashed
+  have hd := done_of_quiescent hI.c hcr hqw
+  have hc := complete_of_all_done hI.c hI.o hn hd
+  refine ⟨hc.1, hcr, fun i hi => ⟨hd i hi, (hc.2 i hi).2, ?_, (hinst i hi).1, (hinst i hi).2.1⟩⟩
+  rw [← hK.entries i]; exact (hc.2 i hi).1
+
+/-- every safety theorem of this file applies to the composed system through `input_interface_sound`; for instance: -/
+theorem out_set_once_composed (hwf : w.wf) (h : WhenU.Reachable w S) : S.wh.outSet.length ≤ 1 :=
+  out_set_once hwf (input_interface_sound hwf h).1
+
+theorem no_crash_composed (hwf : w.wf) (h : WhenU.Reachable w S) : S.wh.crashed = false :=
+  (no_crash hwf (input_interface_sound hwf h).1).1
+
+theorem all_none_in_index_order_composed {ff : Bool} (h : WhenU.Reachable w S)
+    (hs : w.strat = .allVec ff ∨ w.strat = .allTuple ff) (hok : ff = false ∨ ∀ i, i < w.n → ok (w.inp i) = true) :
+    ∀ o, o ∈ S.wh.outSet → o = .vec (w.inputs.map some) ∧ ∀ j, j < w.n → holding (S.wh.pc j) = false :=
+  all_none_at_last_in_index_order
+    (input_interface_sound (wf_of_ne (by rcases hs with hs | hs <;> simp [hs])) h).1 hs hok
+
+theorem composed_validator_sound {l : WhenU.Label} {S' : WhenU.State} (h : WhenU.Reachable w S)
+    (hn : WhenU.next w S l = some S') : WhenU.Reachable w S' := .step h (WhenU.next_sound hn)
+
+/-- non-vacuity (n = 2, driven through the components' `next`): input 0 is complete before the registration reaches it
+    (its `SetCallback` loads `result`, the callback is entered inline), input 1 gets its callback installed and is completed
+    later by its own thread; the vector comes out in index order -/
+example : ∃ S, WhenU.Reachable ⟨.allVec false, [.val 0, .val 1]⟩ S ∧
+    S.wh.outSet = [.vec [some (.val 0), some (.val 1)]] ∧ (S.u 0).delivered = [(.c, .val 0)] ∧
+    (S.u 1).delivered = [(.p, .val 1)] := by
+  let w : Workload := ⟨.allVec false, [.val 0, .val 1]⟩
+  have h0 : WhenU.Reachable w (WhenU.init w) := .init
+  have h1 := composed_validator_sound h0 (l := .prod 0 .empty) (S' := _) rfl
+  have h2 := composed_validator_sound h1 (l := .cload 0 .result) (S' := _) rfl
+  have h3 := composed_validator_sound h2 (l := .enterC 0 (.val 0)) (S' := _) rfl
+  have h4 := composed_validator_sound h3 (l := .when (.dec 0 2)) (S' := _) rfl
+  have h5 := composed_validator_sound h4 (l := .cload 1 .empty) (S' := _) rfl
+  have h6 := composed_validator_sound h5 (l := .casOk 1) (S' := _) rfl
+  have h7 := composed_validator_sound h6 (l := .prod 1 (.cb .cont)) (S' := _) rfl
+  have h8 := composed_validator_sound h7 (l := .enterP 1 (.val 1)) (S' := _) rfl
+  have h9 := composed_validator_sound h8 (l := .when (.dec 1 1)) (S' := _) rfl
+  have h10 := composed_validator_sound h9 (l := .when (.dtorRel 1 0)) (S' := _) rfl
+  have h11 := composed_validator_sound h10 (l := .when (.dtorRel 1 1)) (S' := _) rfl
+  have h12 := composed_validator_sound h11
+    (l := .when (.dtorSet 1 (.vec [some (.val 0), some (.val 1)]))) (S' := _) rfl
+  exact ⟨_, h12, rfl, rfl, rfl⟩
+
+end Composed
 
 /-! ### non-vacuity: concrete workloads reach the interesting states -/
 
